@@ -864,11 +864,14 @@ def gen_history_case(rng):
 
 
 def canon_val(r):
-    if isinstance(r, np.ndarray):
-        return 'l:' + ','.join(str(int(x)) for x in r.tolist())
-    if isinstance(r, (list, tuple)):
-        return 'l:' + ','.join(str(int(x)) for x in r)
-    return 'i:' + str(int(r))
+    try:
+        if isinstance(r, np.ndarray):
+            return 'l:' + ','.join(str(int(x)) for x in r.tolist())
+        if isinstance(r, (list, tuple)):
+            return 'l:' + ','.join(str(int(x)) for x in r)
+        return 'i:' + str(int(r))
+    except (TypeError, ValueError):
+        return 'other:' + repr(r)[:60]
 
 
 def canon_err(e):
@@ -917,7 +920,12 @@ def run_history_impl(case, budget, rep):
                 res.append('ok')
         except Exception as e:  # noqa: BLE001
             res.append(canon_err(e))
-    series = ';'.join(f'{nm}=' + ','.join(str(int(x)) for x in a.__dict__['_' + nm].tolist()) for nm in a.names)
+    if list(a.names) != list(Plain.NAMES) or list(a.index) != ['status', 'iterations'] + list(Plain.NAMES):
+        # no operation of this part adds a variable: the name lists are the class's, whatever failed on the way
+        rep.violate('alias-adds-storage:names', f'after the history names={list(a.names)}, index={list(a.index)}; the '
+                    f'model declares {list(Plain.NAMES)} (ALIASES={dict(items)}, strict={case["strict"]})', case)
+    series = ';'.join(f'{nm}=' + (','.join(str(int(x)) for x in a.__dict__['_' + nm].tolist())
+                                  if '_' + nm in a.__dict__ else '<no storage>') for nm in a.names)
     attrs = ';'.join(f'{k}={canon_val(v)}' for k, v in a.__dict__.items() if k not in snapshot)
     return ' '.join(res) + '|' + series + '|' + attrs
 
@@ -2067,16 +2075,22 @@ def _run_parts(ctx, rep):
     everything in a row in worker 0."""
     quick = ctx.tier == 'quick'
     n_i = (2400 if quick else 45000) * ctx.scale
-    if ctx.parts < len(LEGACY) + 2:
-        if ctx.part == 0:
-            for f in LEGACY:
-                f(ctx, rep)
-            check_failops(ctx, rep, ctx.sub_rng('failops'), n_i)
-    elif ctx.part < len(LEGACY):
-        LEGACY[ctx.part](ctx, rep)
-    else:
-        share = n_i // (ctx.parts - len(LEGACY)) + 1
-        check_failops(ctx, rep, ctx.sub_rng('failops'), share)
+    try:
+        if ctx.parts < len(LEGACY) + 2:
+            if ctx.part == 0:
+                for f in LEGACY:
+                    f(ctx, rep)
+                check_failops(ctx, rep, ctx.sub_rng('failops'), n_i)
+        elif ctx.part < len(LEGACY):
+            LEGACY[ctx.part](ctx, rep)
+        else:
+            share = n_i // (ctx.parts - len(LEGACY)) + 1
+            check_failops(ctx, rep, ctx.sub_rng('failops'), share)
+    except Exception as e:  # noqa: BLE001
+        # the harness itself fell over (state it does not expect): decided in run() - next to violations found
+        # elsewhere in the same run it is a consequence of the code under test, on its own it is an infrastructure error
+        import traceback
+        rep.notes.insert(0, 'CRASH worker %d: ' % ctx.part + ''.join(traceback.format_exception(type(e), e, e.__traceback__))[-1500:])
 
 
 # ---------------------------------------------------------------------------------------------------------------
@@ -2126,6 +2140,9 @@ def run(ctx, rep):
         rep.notes.append('hang guard tripped: cyclic maps and self-maps are not constructed in-process in this run')
     fo.usable_member_names()
     framework.parallel(_run_parts, ctx, rep, parts=min(ctx.workers, 16))
+    crashes = [x for x in rep.notes if x.startswith('CRASH ')]
+    if crashes and not rep.violations:
+        raise RuntimeError(crashes[0])
     rep.notes.append(f'(G) {sum(v for k, v in rep.dist.items() if k.startswith("opts-kind:"))} objects (models, '
                      f'linkers, containers) x {len(OPT_COMBOS)} flag combinations x 2 spellings')
     rep.notes.append(f'(H) {rep.dist["hier-event:class"]} classes, {rep.dist["hier-event:new"]} constructor calls, '
